@@ -126,6 +126,14 @@ def setup():
   gin.register(Ks.make)
   gin.register(Ks)
   TARGETS['Ks.make'] = dict(call=lambda: gin.get_configurable(Ks)().make(), sig=['a', 'b'], varkw=False, lists={})
+  # Gin's own configurables are configurables like any other: `gin.macro` accepts `value` and nothing else
+  def macro_call(**kw):
+    try:
+      v = gin.get_configurable('gin.macro')(**kw)
+    except Exception as e:  # pylint: disable=broad-except
+      v = 'raised ' + type(e).__name__
+    REC.append(('gin.macro', gin.current_scope_str(), {'value': v}))
+  TARGETS['gin.macro'] = dict(call=macro_call, sig=['value'], varkw=False, lists={})
   # a module used through dynamic registration (classes partly registered statically with lists)
   import atexit, os, shutil, sys, tempfile  # pylint: disable=import-outside-toplevel,multiple-imports
   d = tempfile.mkdtemp(prefix='c11_')
@@ -171,7 +179,7 @@ class Box:
   import c11dyn  # pylint: disable=import-outside-toplevel,unused-import
 
 
-PARAMS = ['a', 'b', 'nope', 'zz', '_private', 'A', 'self', 'this', '_cls', 'args', 'rest']
+PARAMS = ['a', 'b', 'nope', 'zz', '_private', 'A', 'self', 'this', '_cls', 'args', 'rest', 'value']
 SCOPES = ['', 's']
 PATHS = ['str', 'tuple', 'list', 'pbk', 'text', 'block', 'files_and_bindings', 'hook', 'hook_tuple', 'tuple4',
          'list4', 'hook_tuple4', 'hook_after_valid_key']
@@ -185,6 +193,8 @@ def bound(tier):
 def spellings(tname):
   if tname == 'Km.meth':
     return ['c11.Km.meth', 'Km.meth', 'meth', 'c11.meth']
+  if tname == 'gin.macro':
+    return ['gin.macro', 'macro']
   return ['c11.' + tname, tname]
 
 
